@@ -298,3 +298,8 @@ Proof. intros; split; reflexivity. Qed.
 Lemma tls_validate_ni_l : forall f p1 c1 k1 p2 c2 k2,
   nonempty p1 = nonempty p2 -> tls_validate f p1 c1 k1 = tls_validate f p2 c2 k2.
 Proof. intros f p1 c1 k1 p2 c2 k2 H. unfold tls_validate. now rewrite H. Qed.
+
+(* ---- rendering after use = rendering before use -------------------------------------------------------------- *)
+Lemma after_use_l : forall (A : Type) (rend : hdrs -> A) bs cfg,
+  rend (fold_left (fun c b => config_after b c) bs cfg) = rend cfg.
+Proof. intros A rend bs. induction bs as [|b r IH]; intros cfg; simpl; [reflexivity|apply IH]. Qed.
